@@ -102,3 +102,121 @@ theorem packetWrites_flatten (ch : Int) (data : Bytes) (h : data.length < 65536)
     simp [encodeFrame, this]
 
 end IpcHub.Writers
+
+namespace IpcHub.Writers
+open IpcHub.InterleaveSpec
+
+theorem headEnd_bound (s : Bytes) (i h : Nat) (hs : headEnd s i = some h) : 4 ≤ s.length ∧ i + 4 ≤ h ∧ h ≤ i + s.length := by
+  induction s generalizing i with
+  | nil => simp [headEnd] at hs
+  | cons b r ih =>
+    simp only [headEnd] at hs
+    split at hs
+    · rename_i hp
+      have hl : ((b :: r).take 4).length = 4 := by
+        have := congrArg List.length (beq_iff_eq.mp hp)
+        simpa using this
+      have : 4 ≤ (b :: r).length := by
+        rw [List.length_take] at hl; omega
+      cases hs
+      exact ⟨this, Nat.le_refl _, by omega⟩
+    · obtain ⟨h1, h2, h3⟩ := ih (i + 1) hs
+      simp only [List.length_cons]
+      omega
+
+theorem headEnd_append (s t : Bytes) (i h : Nat) (hs : headEnd s i = some h) : headEnd (s ++ t) i = some h := by
+  induction s generalizing i with
+  | nil => simp [headEnd] at hs
+  | cons b r ih =>
+    simp only [headEnd] at hs
+    simp only [List.cons_append, headEnd]
+    split at hs
+    · rename_i hp
+      have hl : 4 ≤ (b :: r).length := (headEnd_bound (b :: r) i h (by simp only [headEnd]; rw [if_pos hp]; exact hs)).1
+      have : (b :: (r ++ t)).take 4 = (b :: r).take 4 := by
+        rw [← List.cons_append, List.take_append_of_le_length hl]
+      rw [this, if_pos hp]
+      exact hs
+    · rename_i hp
+      have hr := headEnd_bound r (i + 1) h hs
+      have : (b :: (r ++ t)).take 4 = (b :: r).take 4 := by
+        rw [← List.cons_append, List.take_append_of_le_length (by simp only [List.length_cons]; omega)]
+      rw [this, if_neg hp]
+      exact ih (i + 1) hs
+
+/-- a complete response in front of anything is read back as exactly that response -/
+theorem nextUnit_response (raw rest : Bytes) (hw : wfResponse raw = true) :
+    nextUnit (raw ++ rest) = some (.response raw, rest) := by
+  simp only [wfResponse, Bool.and_eq_true] at hw
+  obtain ⟨hpre, hlen⟩ := hw
+  cases hh : headEnd raw 0 with
+  | none => simp [hh] at hlen
+  | some h =>
+    simp only [hh, beq_iff_eq] at hlen
+    have hb := headEnd_bound raw 0 h hh
+    have hpre' : rtspPrefix.isPrefixOf (raw ++ rest) = true := by
+      rw [List.isPrefixOf_iff_prefix] at hpre ⊢
+      exact hpre.trans (List.prefix_append raw rest)
+    -- the stream does not start with '$'
+    obtain ⟨tl, htl⟩ : ∃ tl, raw = 82 :: tl := by
+      rw [List.isPrefixOf_iff_prefix] at hpre
+      obtain ⟨u, hu⟩ := hpre
+      exact ⟨[84, 83, 80, 47, 49, 46, 48, 32] ++ u, by rw [← hu]; rfl⟩
+    have htake : (raw ++ rest).take h = raw.take h := List.take_append_of_le_length (by omega)
+    have hs : raw ++ rest = 82 :: (tl ++ rest) := by rw [htl]; rfl
+    have e : nextUnit (raw ++ rest) =
+        (if !(rtspPrefix.isPrefixOf (raw ++ rest)) then none
+         else match headEnd (raw ++ rest) 0 with
+          | none => none
+          | some h =>
+            let total := h + contentLength ((raw ++ rest).take h)
+            if (raw ++ rest).length < total then none
+            else some (InterleaveSpec.Unit.response ((raw ++ rest).take total), (raw ++ rest).drop total)) := by
+      rw [hs]
+      unfold nextUnit
+      split
+      · rename_i heq; simp at heq
+      · rfl
+    rw [e]
+    simp only [hpre', Bool.not_true, Bool.false_eq_true, ↓reduceIte, headEnd_append raw rest 0 h hh, htake, hlen]
+    simp
+
+theorem nextUnit_wf (u : InterleaveSpec.Unit) (rest : Bytes) (h : u.wf = true) : nextUnit (u.bytes ++ rest) = some (u, rest) := by
+  cases u with
+  | frame ch p => exact nextUnit_frame ch p rest (by simpa [InterleaveSpec.Unit.wf] using h)
+  | response raw => exact nextUnit_response raw rest (by simpa [InterleaveSpec.Unit.wf] using h)
+
+theorem wf_bytes_ne_nil (u : InterleaveSpec.Unit) (h : u.wf = true) : u.bytes ≠ [] := by
+  cases u with
+  | frame ch p => simp [InterleaveSpec.Unit.bytes, encodeFrame]
+  | response raw =>
+    simp only [InterleaveSpec.Unit.wf, wfResponse, Bool.and_eq_true] at h
+    intro hn
+    simp only [InterleaveSpec.Unit.bytes] at hn
+    rw [hn] at h
+    simp [rtspPrefix] at h
+
+/-- a concatenation of complete units parses back into exactly those units -/
+theorem parseStream_concat (us : List InterleaveSpec.Unit) (hw : ∀ u ∈ us, u.wf = true) (fuel : Nat)
+    (hf : (us.map InterleaveSpec.Unit.bytes).flatten.length < fuel) :
+    parseStream fuel (us.map InterleaveSpec.Unit.bytes).flatten = some us := by
+  induction us generalizing fuel with
+  | nil => cases fuel <;> simp [parseStream]
+  | cons u r ih =>
+    have hu := hw u (by simp)
+    have hne := wf_bytes_ne_nil u hu
+    simp only [List.map_cons, List.flatten_cons] at hf ⊢
+    cases fuel with
+    | zero => omega
+    | succ n =>
+      have hlen : 0 < u.bytes.length := List.length_pos_iff.mpr hne
+      cases hb : u.bytes ++ (r.map InterleaveSpec.Unit.bytes).flatten with
+      | nil => simp at hb; exact absurd hb.1 hne
+      | cons c cs =>
+        rw [← hb]
+        simp only [parseStream, hb]
+        rw [← hb, nextUnit_wf u _ hu]
+        simp only
+        rw [ih (fun v hv => hw v (by simp [hv])) n (by simp only [List.length_append] at hf; omega)]
+
+end IpcHub.Writers
